@@ -127,6 +127,33 @@ def r19_4(ctx: Ctx):
             named = {a for a in attrs if f"'{a}'" in txt or f'"{a}"' in txt or f".{a}" in txt}
             missing = sorted(attrs - named)
             ok = (whole and not any(isinstance(c, ast.DictComp) and c.generators[0].ifs for c in ast.walk(m.node))) or not missing
+            # a hook that edits the state dictionary (entries overwritten / removed) hands the reconstruction to code
+            edits = []
+            if h in ("__getstate__", "__reduce__", "__reduce_ex__"):
+                for x in ast.walk(m.node):
+                    if isinstance(x, (ast.Assign, ast.AugAssign, ast.Delete)):
+                        for t in (x.targets if isinstance(x, (ast.Assign, ast.Delete)) else [x.target]):
+                            if isinstance(t, ast.Subscript) and isinstance(t.slice, ast.Constant) and isinstance(t.slice.value, str):
+                                edits.append(t.slice.value)
+                    if isinstance(x, ast.Call) and isinstance(x.func, ast.Attribute) and x.func.attr == "pop" and x.args and isinstance(x.args[0], ast.Constant):
+                        edits.append(x.args[0].value)
+            if edits:
+                setter = ci.methods.get("__setstate__")
+                restored = set()
+                if setter is not None:
+                    for x in body_walk(setter.node):
+                        tg = x.targets if isinstance(x, ast.Assign) else [x.target] if isinstance(x, (ast.AugAssign, ast.AnnAssign)) else []
+                        for t in tg:
+                            if is_self_attr(t, None, setter.self_name()):
+                                restored.add(t.attr)
+                        if isinstance(x, ast.Call) and isinstance(x.func, ast.Attribute) and x.func.attr in ("append", "extend", "insert") and is_self_attr(x.func.value, None, setter.self_name()):
+                            restored.add(x.func.value.attr)
+                lost = sorted(set(edits) - restored)
+                if lost:
+                    obs.append(ctx.ob("R19.4", m, m.node, status=VIOLATION, detail=f"{ci.name}.{h} removes / blanks {lost} from the snapshot and __setstate__ does not put them back: the restored object differs from the original", construct=f"{ci.name}.{h}"))
+                else:
+                    obs.append(ctx.ob("R19.4", m, m.node, status=INCONCLUSIVE, detail=f"{ci.name}.{h} leaves {sorted(set(edits))} out of the snapshot and __setstate__ rebuilds them by code: the analyser cannot tell whether the rebuilt value equals the original", construct=f"{ci.name}.{h}"))
+                continue
             obs.append(ctx.ob("R19.4", m, m.node, status=OK if ok else VIOLATION, detail=f"{ci.name}.{h} covers the whole instance state" if ok else f"{ci.name}.{h} does not cover attribute(s) {missing[:6]}: they are dropped from (or not restored by) a snapshot", construct=f"{ci.name}.{h}"))
         if has_slots:
             sl = ci.class_attrs["__slots__"]
@@ -185,4 +212,43 @@ def r19_5(ctx: Ctx):
     return obs
 
 
-RULES = [("R19.1", r19_1, 5), ("R19.2", r19_2, 2), ("R19.3", r19_3, 2), ("R19.4", r19_4, 1), ("R19.5", r19_5, 1)]
+def r19_6(ctx: Ctx):
+    """R19.6 no attribute is a numpy *view* of another attribute that the object keeps writing in place: pickling stores the two arrays separately, so after a restore writes to one are no longer seen through the other."""
+    obs = []
+    n = 0
+    for ci in ctx.prog.classes.values():
+        if not ci.module.name.startswith(("pyhms.demes", "pyhms.core", "pyhms.sprout", "pyhms.stop_conditions", "pyhms.tree")):
+            continue
+        n += 1
+        views = []  # (method, stmt, viewing attr, base attr)
+        for m in ci.methods.values():
+            sn = m.self_name()
+            if sn is None:
+                continue
+            for x in body_walk(m.node):
+                if isinstance(x, (ast.Assign, ast.AnnAssign)) and getattr(x, "value", None) is not None and isinstance(x.value, ast.Subscript) and is_self_attr(x.value.value, None, sn):
+                    sl = x.value.slice
+                    basic = isinstance(sl, (ast.Slice, ast.Constant)) or (isinstance(sl, ast.Tuple) and all(isinstance(e, (ast.Slice, ast.Constant)) for e in sl.elts)) or (isinstance(sl, ast.UnaryOp) and isinstance(sl.operand, ast.Constant))
+                    for t in (x.targets if isinstance(x, ast.Assign) else [x.target]):
+                        if basic and is_self_attr(t, None, sn) and t.attr != x.value.value.attr:
+                            views.append((m, x, t.attr, x.value.value.attr))
+        for m, x, a, b in views:
+            # is the base (or the view) written in place anywhere in the class?
+            writes = []
+            for g in ci.methods.values():
+                gs = g.self_name()
+                for y in body_walk(g.node):
+                    if isinstance(y, (ast.Assign, ast.AugAssign)):
+                        for t in (y.targets if isinstance(y, ast.Assign) else [y.target]):
+                            if isinstance(t, ast.Subscript) and is_self_attr(t.value, None, gs) and t.value.attr in (a, b):
+                                writes.append(y)
+            if writes:
+                obs.append(ctx.ob("R19.6", m, x, status=VIOLATION, detail=f"{ci.name}: `{norm(x)[:60]}` makes self.{a} a view of self.{b}, and the class writes into them in place (`{norm(writes[0])[:50]}`): a snapshot stores two independent arrays, so in a restored object the writes no longer reach the other attribute", construct=f"{ci.name}:{a}-view-of-{b}"))
+    if n < 30:
+        raise AnalysisError(f"only {n} classes scanned for array views")
+    if not obs:
+        obs.append(ctx.ob("R19.6", None, None, subject="pyhms", loc="-", detail=f"{n} classes: no attribute is a view of another attribute that is written in place", construct="no-attribute-views"))
+    return obs
+
+
+RULES = [("R19.1", r19_1, 5), ("R19.2", r19_2, 2), ("R19.3", r19_3, 2), ("R19.4", r19_4, 1), ("R19.5", r19_5, 1), ("R19.6", r19_6, 1)]
